@@ -43,6 +43,14 @@ pub enum DirOp {
     MtimeStep { ms: i64 },
     CleanExpired { dir: u8, grace: u64 },
     Query { dir: u8, seed: u64, n: u32 },
+    /// as Keyed, but the export is only written into `to` (as another process would): the manager of that directory
+    /// learns of it at its next refresh or re-open
+    KeyedExternal { from: u8, to: u8, key: u8, flags: u8, valid_secs: u64 },
+    /// the directory's long-lived manager rescans its directory (ShardFileManager::refresh_shard_dir)
+    Refresh { dir: u8 },
+    /// hand one keyed export of `dir` to the manager by its own file path (register_shards_by_path), as the
+    /// global-dedup path does with a downloaded shard
+    RegisterByPath { dir: u8, pick: u64 },
 }
 
 #[derive(Clone, Debug, Serialize, Deserialize, PartialEq)]
@@ -593,6 +601,10 @@ async fn run_dir_history(plan: &Plan, models: &[ModelShard], rep: &mut RunReport
     let mut must_have: Vec<ModelShard> = vec![ModelShard::default(); 3];
     // keyed exports made: (dir, key id, flags, expiry, source model, shard hash)
     let mut exports: Vec<(u8, u8, u8, u64, ModelShard, H)> = Vec::new();
+    // which of them the directory's current manager has been told about (registered directly, or the manager was
+    // created / refreshed after the export was written)
+    let mut visible: Vec<bool> = Vec::new();
+    let mut export_paths: Vec<PathBuf> = Vec::new();
     let mut damaged_expectation = [false; 3];
 
     for (oi, op) in plan.ops.iter().enumerate() {
@@ -729,7 +741,8 @@ async fn run_dir_history(plan: &Plan, models: &[ModelShard], rep: &mut RunReport
                 // a manager that was open on this directory now refers to deleted files: re-open it
                 dirs[d].mgr = None;
             },
-            DirOp::Keyed { from, to, key, flags, valid_secs } => {
+            DirOp::Keyed { from, to, key, flags, valid_secs } | DirOp::KeyedExternal { from, to, key, flags, valid_secs } => {
+                let external = matches!(op, DirOp::KeyedExternal { .. });
                 let (f, t) = (*from as usize % 3, *to as usize % 3);
                 if f == t {
                     continue;
@@ -754,12 +767,19 @@ async fn run_dir_history(plan: &Plan, models: &[ModelShard], rep: &mut RunReport
                             check_keyed_export(rep, &ob, &srcm, &kh, *flags, now, *valid_secs, oi);
                             check_keyed_equivalence(rep, &root, &path, &out.path, &srcm, oi, plan.query_seed ^ oi as u64).await;
                             exports.push((t as u8, *key, *flags, now.saturating_add(*valid_secs), srcm.clone(), h_of(&out.shard_hash)));
+                            export_paths.push(out.path.clone());
                             for x in srcm.xorbs.values() {
                                 known_xorbs.entry(x.hash).or_insert_with(|| x.clone());
                             }
-                            if let Some(mgr) = &dirs[t].mgr {
-                                let _ = mgr.register_shards(&[out]).await;
+                            let mut seen = false;
+                            if !external {
+                                if let Some(mgr) = &dirs[t].mgr {
+                                    seen = mgr.register_shards(&[out]).await.is_ok();
+                                }
+                            } else {
+                                rep.count("ops:keyed_export_by_another_process", 1);
                             }
+                            visible.push(seen);
                         },
                     }
                 }
@@ -782,10 +802,52 @@ async fn run_dir_history(plan: &Plan, models: &[ModelShard], rep: &mut RunReport
                             }
                         }
                         dirs[d].mgr = Some(m);
+                        for (k, e) in exports.iter().enumerate() {
+                            if e.0 as usize == d {
+                                visible[k] = true;
+                            }
+                        }
                     },
                     Err(e) => rep.violate("C10.d", "reopen-error", format!("op {oi}: {e}")),
                 }
                 rep.count("ops:reopen", 1);
+            },
+            DirOp::Refresh { dir } => {
+                let d = *dir as usize % 3;
+                if let Some(mgr) = dirs[d].mgr.clone() {
+                    match mgr.refresh_shard_dir().await {
+                        Ok(()) => {
+                            for (k, e) in exports.iter().enumerate() {
+                                if e.0 as usize == d {
+                                    visible[k] = true;
+                                }
+                            }
+                            rep.count("ops:refresh_of_a_live_manager", 1);
+                        },
+                        Err(e) => rep.violate("C10.d", "refresh-error", format!("op {oi}: {e}")),
+                    }
+                }
+            },
+            DirOp::RegisterByPath { dir, pick } => {
+                let d = *dir as usize % 3;
+                let cands: Vec<usize> = (0..exports.len()).filter(|&k| exports[k].0 as usize == d && export_paths[k].exists()).collect();
+                if let (Some(mgr), false) = (dirs[d].mgr.clone(), cands.is_empty()) {
+                    let k = cands[(*pick % cands.len() as u64) as usize];
+                    let now = clock.now.load(Ordering::SeqCst);
+                    let h = m_of(&exports[k].5);
+                    let before = mgr.shard_is_registered(&h).await;
+                    let r = mgr.register_shards_by_path(&[export_paths[k].clone()]).await;
+                    let after = mgr.shard_is_registered(&h).await;
+                    if exports[k].3 < now {
+                        // C18.d: a shard past its expiry is not loaded, however it is named
+                        if !before && after {
+                            rep.violate("C18.d", "expired-shard-registered-by-path", format!("op {oi}: shard with expiry {} registered by its file path at time {now}", exports[k].3));
+                        }
+                        rep.count("probe:expired_shard_offered_by_path", 1);
+                    } else if r.is_ok() && after {
+                        visible[k] = true;
+                    }
+                }
             },
             DirOp::AdvanceClock { secs } => {
                 clock.now.fetch_add(*secs, Ordering::SeqCst);
@@ -817,6 +879,13 @@ async fn run_dir_history(plan: &Plan, models: &[ModelShard], rep: &mut RunReport
                 let d = *dir as usize % 3;
                 if dirs[d].mgr.is_none() {
                     dirs[d].mgr = ShardFileManager::new_in_session_directory(&dirs[d].path).await.ok();
+                    if dirs[d].mgr.is_some() {
+                        for (k, e) in exports.iter().enumerate() {
+                            if e.0 as usize == d {
+                                visible[k] = true;
+                            }
+                        }
+                    }
                 }
                 let Some(mgr) = dirs[d].mgr.clone() else { continue };
                 let mut qr = Rng::new(*seed);
@@ -834,7 +903,7 @@ async fn run_dir_history(plan: &Plan, models: &[ModelShard], rep: &mut RunReport
                             // export in this directory holds the first chunk, and no other chunk of a live export here
                             // shares its plain truncated prefix, the unkeyed query must hit
                             if focus == "C18" && !damaged_expectation[d] {
-                                let live: Vec<&ModelShard> = exports.iter().filter(|e| e.0 as usize == d && e.3 >= now).map(|e| &e.4).collect();
+                                let live: Vec<&ModelShard> = exports.iter().enumerate().filter(|(k, e)| e.0 as usize == d && e.3 >= now && visible[*k]).map(|(_, e)| &e.4).collect();
                                 let occurrences: usize = live.iter().map(|m| m.xorbs.values().map(|x| x.chunks.iter().filter(|c| c.0 == q[0]).count()).sum::<usize>()).sum();
                                 let clash: usize = live.iter().map(|m| m.xorbs.values().map(|x| x.chunks.iter().filter(|c| c.0 != q[0] && trunc(&c.0) == trunc(&q[0])).count()).sum::<usize>()).sum();
                                 if occurrences >= 1 && clash == 0 {
@@ -1141,6 +1210,28 @@ fn gen(seed: u64, run: u64, focus: &str, tier: Tier) -> Plan {
                 }
                 ops.push(DirOp::Reopen { dir: 2 });
                 ops.push(DirOp::Query { dir: 2, seed: rng.next_u64(), n: 6 });
+            }
+            // a long-lived manager of the export directory: shards expire or are cleaned up, another process adds
+            // shards, the manager rescans; a shard is also handed to it by its own file path
+            if rng.chance(1, 2) {
+                for _ in 0..rng.range(1, 3) {
+                    match rng.below(4) {
+                        0 => ops.push(DirOp::AdvanceClock { secs: *rng.pick(&[2u64, 11, 1001]) }),
+                        1 => ops.push(DirOp::CleanExpired { dir: 2, grace: *rng.pick(&[0u64, 1, 10]) }),
+                        _ => {},
+                    }
+                    for _ in 0..rng.range(1, 2) {
+                        ops.push(DirOp::KeyedExternal { from: rng.below(2) as u8, to: 2, key: rng.below(4) as u8, flags: rng.below(8) as u8, valid_secs: *rng.pick(&[0u64, 1, 1000, 100_000]) });
+                    }
+                    if rng.chance(1, 3) {
+                        ops.push(DirOp::AdvanceClock { secs: *rng.pick(&[1u64, 2, 11]) });
+                    }
+                    if rng.chance(1, 2) {
+                        ops.push(DirOp::RegisterByPath { dir: 2, pick: rng.next_u64() });
+                    }
+                    ops.push(DirOp::Refresh { dir: 2 });
+                    ops.push(DirOp::Query { dir: 2, seed: rng.next_u64(), n: 6 });
+                }
             }
         }
         if mode == "setops" {
